@@ -1750,12 +1750,13 @@ Lemma resume_decompose : forall a s r tmo res,
   (exists y wi c, res = ROk (fail_session y wi c) /\ core_inv (session_ y) /\ s_pushed (session_ y) = None /\
                   frame {| session_ := s; sprint_ := empty_sprint |} y /\ waiting_run s = Some wi /\
                   (y = {| session_ := s; sprint_ := empty_sprint |} \/
-                   exists pos, y = apply_resume (resume_x0 s) wi (Some (wi, pos)) r)) \/
+                   exists pos n, path_location a s wi = Some (pos, n) /\ y = apply_resume (resume_x0 s) wi (Some (wi, pos)) r)) \/
   (exists x2 l, res = continue_until_wait (fuel_for a (session_ x2)) a x2 l /\ loop_inv x2 l /\
                 l_steps l = 0%Z /\ s_pushed (session_ x2) = None /\
                 frame {| session_ := s; sprint_ := empty_sprint |} x2 /\
                 exists wi pos e op, waiting_run s = Some wi /\ l_cur l = Some wi /\ l_exit l = e /\
-                  find_resume_exit a (apply_resume (resume_x0 s) wi (Some (wi, pos)) r) wi (is_timeout r) tmo = FreOk x2 e op).
+                  find_resume_exit a (apply_resume (resume_x0 s) wi (Some (wi, pos)) r) wi (is_timeout r) tmo = FreOk x2 e op /\
+                  l_step l = Some (wi, pos) /\ exists n, path_location a s wi = Some (pos, n)).
 Proof.
   intros a s r tmo res Hpost. unfold resume_session.
   destruct (sstatus_eqb (s_status s) SWaiting) eqn:Est; simpl; [|discriminate].
@@ -1765,12 +1766,13 @@ Proof.
             (exists y wi0 c, res' = ROk (fail_session y wi0 c) /\ core_inv (session_ y) /\ s_pushed (session_ y) = None /\
                   frame {| session_ := s; sprint_ := empty_sprint |} y /\ Some wi = Some wi0 /\
                   (y = {| session_ := s; sprint_ := empty_sprint |} \/
-                   exists pos, y = apply_resume (resume_x0 s) wi0 (Some (wi0, pos)) r)) \/
+                   exists pos n, path_location a s wi0 = Some (pos, n) /\ y = apply_resume (resume_x0 s) wi0 (Some (wi0, pos)) r)) \/
             (exists x2 l, res' = continue_until_wait (fuel_for a (session_ x2)) a x2 l /\ loop_inv x2 l /\
                 l_steps l = 0%Z /\ s_pushed (session_ x2) = None /\
                 frame {| session_ := s; sprint_ := empty_sprint |} x2 /\
                 exists wi0 pos e op, Some wi = Some wi0 /\ l_cur l = Some wi0 /\ l_exit l = e /\
-                  find_resume_exit a (apply_resume (resume_x0 s) wi0 (Some (wi0, pos)) r) wi0 (is_timeout r) tmo = FreOk x2 e op)).
+                  find_resume_exit a (apply_resume (resume_x0 s) wi0 (Some (wi0, pos)) r) wi0 (is_timeout r) tmo = FreOk x2 e op /\
+                  l_step l = Some (wi0, pos) /\ exists n, path_location a s wi0 = Some (pos, n))).
   { intros c res' H. inversion H; subst. left. exists {| session_ := s; sprint_ := empty_sprint |}, wi, c.
     destruct Hpost as [Hc [Hp _]]. split; [reflexivity|]. split; [exact Hc|]. split; [exact Hp|].
     split; [apply frame_refl|]. split; [reflexivity|left; reflexivity]. }
@@ -1778,7 +1780,7 @@ Proof.
             | Some rn => match get_flow a (r_flow rn) with Some _ => false | None => true end
             | None => true end); [apply Hfs|].
   destruct (Z.of_nat (count_waits s) >=? max_resumes (a_opts a))%Z; [apply Hfs|].
-  destruct (path_location a s wi) as [[pos n]|]; [|apply Hfs].
+  destruct (path_location a s wi) as [[pos n]|] eqn:Epl; [|apply Hfs].
   destruct (n_router n) as [[[w|] rres rcats rcases rdef]|]; try apply Hfs.
   destruct (negb (accepts w r)); [discriminate|].
   cbv zeta. fold (resume_x0 s).
@@ -1792,8 +1794,9 @@ Proof.
   destruct (find_resume_exit a x1 wi (is_timeout r) tmo) as [x2 e op|x2|x2|] eqn:Efre; try contradiction.
   - intros H. inversion H; subst; clear H. right. eexists x2, _. split; [reflexivity|].
     assert (Horigin : exists wi0 pos0 e0 op0, Some wi = Some wi0 /\ Some wi = Some wi0 /\ e = e0 /\
-               find_resume_exit a (apply_resume (resume_x0 s) wi0 (Some (wi0, pos0)) r) wi0 (is_timeout r) tmo = FreOk x2 e0 op0).
-    { exists wi, pos, e, op. repeat split; auto. }
+               find_resume_exit a (apply_resume (resume_x0 s) wi0 (Some (wi0, pos0)) r) wi0 (is_timeout r) tmo = FreOk x2 e0 op0 /\
+               Some (wi, pos) = Some (wi0, pos0) /\ exists n0, path_location a s wi0 = Some (pos0, n0)).
+    { exists wi, pos, e, op. repeat split; auto. exists n. exact Epl. }
     destruct Hfre as [[Hss Hact]|[-> Hfsh]].
     + split; [eapply mid_same; [apply (M l0); reflexivity|exact Hss|reflexivity|]|].
       * simpl. intros He. rewrite <- status_at_st_at. apply Hact. exact He.
@@ -1804,5 +1807,5 @@ Proof.
       split; [eapply frame_trans; [exact F1|apply (fs_frame _ _ _ Hfsh)]|]. exact Horigin.
   - subst x2. intros H; inversion H; subst. left. exists x1, wi, FRouteError. split; [reflexivity|].
     split; [apply (mi_core _ _ _ _ (M l0 eq_refl eq_refl))|]. split; [apply (mi_pushed _ _ _ _ (M l0 eq_refl eq_refl))|].
-    split; [exact F1|]. split; [reflexivity|right; exists pos; reflexivity].
+    split; [exact F1|]. split; [reflexivity|right; exists pos, n; split; [exact Epl|reflexivity]].
 Qed.
